@@ -155,7 +155,8 @@ def run(tier):
     with open(os.path.join(src, "Cargo.toml"), "w") as f:
         f.write('[package]\nname = "lifeprobe"\nversion = "0.0.0"\nedition = "2021"\n[workspace]\n[dependencies]\n'
                 'rrtk = { path = "/repo", features = ["devices"] }\n')
-    shutil.copy("/repo/Cargo.lock", os.path.join(src, "Cargo.lock"))
+    if os.path.exists("/repo/Cargo.lock"):
+        shutil.copy("/repo/Cargo.lock", os.path.join(src, "Cargo.lock"))
     for name, (code, _, _) in progs.items():
         with open(os.path.join(src, "src", "bin", name + ".rs"), "w") as f:
             f.write(code)
